@@ -101,7 +101,7 @@ func n2choices(c *explore.Chooser) refamf.Choices {
 			ch.ICSOpt |= 1 << uint(i)
 		}
 	}
-	ch.NGSetupShape = c.Pick("NGSetupResponse-shape", 3)
+	ch.NGSetupShape = c.Pick("NGSetupResponse-shape", 4)
 	ch.PerUE = c.Pick("per-UE-RAND/SQN", 4)
 	if c.Pick("SMC+IMEISV-request", 2) == 1 {
 		ch.SMCOpt |= 1
